@@ -420,6 +420,23 @@ def w3(ctx, F):
                 v = hir.fold(cnt[1], assume)
                 if v != ("lit", int(d)):
                     bad.append((d, hir.fmt(v, 40)))
+        # a loop over the run makes exactly that many steps: `for _ in lo..hi` with hi - lo = the digit's value
+        for ln, _ in hir.walk(a["body"]):
+            if ln.get("k") == "Match" and ln.get("src") == "ForLoopDesugar":
+                it = sym(ln["e"])
+                if it[:1] == ("call",) and str(it[1]).endswith("IntoIterator::into_iter") and it[2]:
+                    it = it[2][0]
+                if it[:1] == ("struct",) and str(it[1]).endswith(("ops::Range", "ops::RangeInclusive")):
+                    d_ = dict(it[2])
+                    for d in sorted(digits_ok):
+                        assume = {("var", nm): ("lit", d) for nm in names}
+                        assume[scr] = ("lit", d)
+                        lo_, hi_ = hir.sym_int(hir.fold(d_.get("start"), assume)), hir.sym_int(hir.fold(d_.get("end"), assume))
+                        if lo_ is None or hi_ is None:
+                            continue
+                        steps = hi_ - lo_ + (1 if str(it[1]).endswith("RangeInclusive") else 0)
+                        if steps != int(d):
+                            bad.append((d, "loop makes %d step(s)" % steps))
         ctx.check("C17.W3", "empty-run-count-is-the-digit's-value", cnt is not None and not bad, fn=NEW, file=fn["file"], line=hir.line(a["body"]),
                   what="the number of empty squares is not decoded as the digit's value", found=bad or (hir.fmt(cnt[1], 80) if cnt else None))
     # unknown characters are refused
@@ -523,10 +540,10 @@ def w4_w5(ctx, F):
             if n.get("k") == "MethodCall" and n["name"] in ("nth", "next") and "chars" in hir.fmt(sym(n["recv"]), 80):
                 lossy.append("first character only (%s)" % n["name"])
         ok = bool(bounded) and bool(whole) and not lossy
-        by_value = None
-        if not ok:
-            # not the reference spelling: decide the clause by value, on a table of en-passant texts for both sides to move
-            by_value = en_passant_by_value(F, fn, body, sym, call)
+        # decided by value, on a table of en-passant texts for both sides to move; the structural reading only when the code cannot be
+        # evaluated on literal text
+        by_value = en_passant_by_value(F, fn, body, sym, call)
+        if by_value == [] or (by_value and not isinstance(by_value[0], str)):
             ok = by_value == []
         ctx.check("C17.W4", "en-passant-file-constrained-before-decoding", ok, fn=NEW, file=fn["file"], line=hir.line(call),
                   what="the en-passant letter is decoded with byte arithmetic and merged into the bitfield that also holds the castling "
